@@ -2261,7 +2261,13 @@ async fn handle_packet(
                     // the incoming source) is a separate concern gated by
                     // `enable_latching` inside handle_stun_request — it is NOT the same
                     // as "should we even reply to this STUN message".
-                    handle_stun_request(&sender, &msg, addr, inner).await;
+                    //
+                    // RFC 8445 §7.3: in WebRTC mode only a request that carries our
+                    // ufrag and a MESSAGE-INTEGRITY under our password may influence
+                    // ICE state; anything else is answered but otherwise ignored.
+                    let authenticated = inner.config.transport_mode != crate::TransportMode::WebRtc
+                        || stun_request_authenticated(packet, &inner);
+                    handle_stun_request(&sender, &msg, addr, inner, authenticated).await;
                 } else if msg.class == StunClass::SuccessResponse {
                     let mut map = inner.pending_transactions.lock();
                     if let Some(tx) = map.remove(&msg.transaction_id) {
@@ -2370,11 +2376,22 @@ async fn handle_packet(
     }
 }
 
+/// USERNAME is `<our ufrag>:<peer ufrag>` and MESSAGE-INTEGRITY verifies under our password.
+fn stun_request_authenticated(packet: &[u8], inner: &IceTransportInner) -> bool {
+    let local = inner.local_parameters.lock().clone();
+    let Some(username) = shared_tcp::username_from_stun_bytes(packet) else {
+        return false;
+    };
+    username.split_once(':').map(|(ours, _)| ours) == Some(local.username_fragment.as_str())
+        && stun::verify_message_integrity(packet, local.password.as_bytes())
+}
+
 async fn handle_stun_request(
     sender: &IceSocketWrapper,
     msg: &StunDecoded,
     addr: SocketAddr,
     inner: Arc<IceTransportInner>,
+    authenticated: bool,
 ) {
     let response = StunMessage::binding_success_response(msg.transaction_id, addr);
 
@@ -2409,6 +2426,11 @@ async fn handle_stun_request(
         }
     } else {
         debug!("Failed to encode STUN Response");
+    }
+
+    if !authenticated {
+        debug!("Ignoring unauthenticated STUN request from {}", addr);
+        return;
     }
 
     // Check if we know this candidate
